@@ -330,10 +330,39 @@ def sleep1(ctx: Ctx, chk) -> None:
             chk.instance(rule)
             k = fkey(f, c) + "::sleeping"
             bad = [x for x in stores if not (isinstance(x, ast.Assign) and isinstance(x.value, ast.Constant) and x.value.value is True)]
+            # what the handler calls around the flush (context managers entered around it, helpers) must not
+            # clear the flag either
+            seen_fn = {f.fq} | flush_fqs
+            work = [(f, n_) for n_ in ctx.own_nodes(f) if isinstance(n_, ast.Call)]
+            depth_of = {f.fq: 0}
+            while work:
+                g_, call_ = work.pop()
+                try:
+                    names = callee_names(ctx, g_, call_)
+                except AnalysisError:
+                    continue
+                for nm in sorted(names):
+                    if nm in seen_fn or not nm.startswith("aiomysensors."):
+                        continue
+                    try:
+                        h = ctx.func(nm)
+                    except (AnalysisError, KeyError):
+                        continue
+                    seen_fn.add(nm)
+                    if h.name == "__init__":
+                        continue
+                    for x in ctx.own_nodes(h):
+                        if isinstance(x, (ast.Assign, ast.AnnAssign, ast.AugAssign)):
+                            tg = x.targets if isinstance(x, ast.Assign) else [x.target]
+                            if any(isinstance(t, ast.Attribute) and t.attr == "sleeping" for t in tg) and not (isinstance(x, ast.Assign) and isinstance(x.value, ast.Constant) and x.value.value is True):
+                                bad.append(x)
+                    depth_of[nm] = depth_of.get(g_.fq, 0) + 1
+                    if depth_of[nm] < 2:
+                        work += [(h, n_) for n_ in ctx.own_nodes(h) if isinstance(n_, ast.Call)]
             cnodes = g.nodes_of(sb._stmt(ctx, f, c))
             dom = [x for x in stores if x not in bad and all(any(g.dominates(sn, cn_) for sn in g.nodes_of(x)) for cn_ in cnodes)]
             if bad:
-                chk.refute(rule, k, f"`{norm(bad[0])}` in {f.qualname}: the node is not marked sleeping while its parked commands are being written, so a concurrent send is written at once and the older parked value is written after it (the last value written is not the last value sent)", ctx.loc(f, bad[0]))
+                chk.refute(rule, k, f"`{norm(bad[0])}` (reached from {f.qualname}): the node is not marked sleeping while its parked commands are being written, so a concurrent send is written at once and the older parked value is written after it (the last value written is not the last value sent)", f"{f.module.relpath}:{bad[0].lineno}")
             elif not dom:
                 chk.refute(rule, k, f"the flush started by `{norm(c)[:60]}` is not preceded by `sleeping = True` on every path", ctx.loc(f, c))
             else:
